@@ -31,6 +31,11 @@
 From Coq Require Import String.
 From Verif Require Export Lib.Base Lib.Reach Model.C02_Scheduler Model.C02_Script Model.C02_TableOps Model.C02_Burst.
 
+(* another job held by the same scheduler instance while the script runs: a one-off or periodic job far in
+   the future under a name of its own.  [sb_match]: its name has the prefix the script's CancelJobs calls
+   use (computed by the harness from the two strings). *)
+Record sib := { sb_match : bool; sb_listed : bool; sb_runs : N }.
+
 Record obs := {
   ob_out : outcome;
   ob_listed : bool;     (* ListJobs contained the name after sc_end *)
@@ -44,6 +49,9 @@ Record obs := {
   ob_foreign : list bool; (* per call: it returned an error that is none of the scheduler's (e.g. the
                            caller's ctx.Err()); such a call reads [Hung] in [o_calls]: it has no status of
                            the model, and it did not report success *)
+  ob_byprefix : list bool; (* per call (from the input, like the script): the call was CancelJobs(prefix) with a
+                           prefix of the job's name -- for the model a CancelJobIfExists (see below) *)
+  ob_sibs : list sib;   (* the other jobs of the same scheduler instance (far in the future, never due) after sc_end *)
   ob_count : N          (* repetitions that showed this outcome *)
 }.
 
@@ -124,8 +132,22 @@ Fixpoint hung_not_foreign (cs : list cst) (fs : list bool) : bool :=
   | c :: cs' => (is_hung c && negb (hd false fs)) || hung_not_foreign cs' (tl fs)
   end.
 
+(* CancelJobs(prefix): the names that have the prefix are collected inside one section of jobsMutex, then
+   CancelJobIfExists is called on each.  For the job of the script that is a CancelJobIfExists whose table
+   section comes later in the same instant (or that finds nothing, when the collecting section already found
+   nothing): the same outcome set as a KCancel call whose result is not seen ([Silent]).  For the OTHER jobs
+   of the scheduler (all idle, far in the future): once a CancelJobs call has returned, every job whose name
+   has the prefix is out of the table and none of them ever ran; the others are untouched. *)
+Definition px_states (ob : obs) : list cst :=
+  map snd (filter (fun x => fst x) (combine (ob_byprefix ob) (o_calls (ob_out ob)))).
+
+Definition sibs_ok (ob : obs) : bool :=
+  ob_hung ob || existsb is_hung (px_states ob)
+  || (let fired := match px_states ob with [] => false | _ => true end in
+      forallb (fun s => (sb_runs s =? 0) && Bool.eqb (sb_listed s) (negb (sb_match s && fired))) (ob_sibs ob)).
+
 Definition timed_ok (ts : list tstate) (ob : obs) : bool :=
-  obs_match ts ob && (dup_ok ob && negb (any_foreign ob)).
+  obs_match ts ob && ((dup_ok ob && sibs_ok ob) && negb (any_foreign ob)).
 
 (* runJob = r_step (RLocked: load active, load finalised; RSet; RSend; RUnl); CancelJob =
    cancel_lookup + c_step (CLocked: load/store finalised; CSend; CUnl); finaliseJob = finalise *)
@@ -383,11 +405,60 @@ Definition is_dup (c : call) : bool := ckind_eqb (cl_kind c) KDup.
 Definition idle_before (sc : script) (o : outcome) (t : N) : bool :=
   forallb (fun s => s + sc_dur sc <? t) (o_starts o).
 
+(* --- a cancellation that MUST have taken effect ---------------------------------------------------
+   "A job cancelled clearly before its time never runs": CancelJobIfExists and CancelJobs(prefix) report
+   nothing, so whether they cancelled the job is decided on the script and the observation: the call
+   returned, and at its instant [tc] the job was certainly in the table -- one-off: before its time, no
+   other call that can remove it (run, cancel, context) issued up to [tc]; periodic (it stays listed while
+   an instance is in progress and while a run request has claimed it): no other cancel / context call up to
+   [tc], and runtimeFunc had not handed out its last instance by the end of the script.  A CancelJob that
+   returned nil took effect by its own word.  (Period 0 is left out: the next instance is due the moment it
+   is handed out, so the timer and the cancel signal are both ready and either may be taken.) *)
+Fixpoint indexed {X} (i : nat) (l : list X) : list (nat * X) :=
+  match l with [] => [] | x :: l' => (i, x) :: indexed (Datatypes.S i) l' end.
+
+Definition removes_b (k : kind) (c : ckind) : bool :=
+  match c, k with
+  | KCancel, _ | KCtx, _ => true
+  | KRun, OneOff => true
+  | _, _ => false
+  end.
+
+Definition certainly_listed (sc : script) (ob : obs) (i : nat) (tc : N) : bool :=
+  negb (existsb (fun jc => negb (Nat.eqb (fst jc) i) && removes_b (sc_kind sc) (cl_kind (snd jc)) && (cl_at (snd jc) <=? tc))
+                (indexed 0 (sc_calls sc)))
+  && match sc_kind sc with
+     | OneOff => tc <? sc_due sc
+     | Periodic => len (ob_insts ob) <? sc_ticks sc
+     end.
+
+Definition effective_cancels (sc : script) (ob : obs) : list N :=
+  match sc_kind sc, sc_due sc with
+  | Periodic, 0 => []
+  | _, _ =>
+      map (fun x => cl_at (fst (snd x)))
+          (filter (fun x => let '(i, (c, s)) := x in
+                            ckind_eqb (cl_kind c) KCancel
+                            && (ret_nil s || (cst_eqb s Silent && certainly_listed sc ob i (cl_at c))))
+                  (indexed 0 (combine (sc_calls sc) (o_calls (ob_out ob)))))
+  end.
+
+(* the instances whose time lies after such a cancellation start nothing, and no run request issued after
+   it does: every start has its cause (an instance's time, a run request) at or before the cancellation *)
+Definition cancelled_never_runs (sc : script) (ob : obs) : bool :=
+  ob_hung ob
+  || forallb (fun tc =>
+                justified (sc_dur sc) None (o_starts (ob_out ob))
+                          (filter (fun L => L <=? tc) (match sc_kind sc with OneOff => [sc_due sc] | Periodic => ob_insts ob end))
+                          (filter (fun r => r <=? tc) (times_of sc (ob_out ob) KRun maybe_nil)))
+             (effective_cancels sc ob).
+
 Definition gone_before (sc : script) (ob : obs) (t : N) : bool :=
   let o := ob_out ob in
   (0 <? t) && idle_before sc o t
   && (existsb (fun tx => tx <? t) (times_of sc o KCtx (fun _ => true))
       || existsb (fun tc => tc <? t) (times_of sc o KCancel ret_nil)
+      || existsb (fun tc => tc <? t) (effective_cancels sc ob)
       || match sc_kind sc with
          | OneOff => (sc_due sc <? t) || existsb (fun tr => tr <? t) (times_of sc o KRun ret_nil)
          | Periodic => (len (ob_insts ob) =? sc_ticks sc) && forallb (fun L => L + sc_dur sc <? t) (ob_insts ob)
@@ -437,7 +508,7 @@ Definition P_timed (sc : script) (ob : obs) : bool :=
 
 (* in a bubble (instants are exact there): also the clauses about the table after the goroutine's end *)
 Definition P_timed_exact (sc : script) (ob : obs) : bool :=
-  P_timed sc ob && after_exit_ok sc ob
+  P_timed sc ob && after_exit_ok sc ob && cancelled_never_runs sc ob && sibs_ok ob
   && match sc_kind sc with OneOff => true | Periodic => run_success_starts sc ob end.
 
 (* the table of names, as a specification over the set of live names: [live] maps a name to the
@@ -489,6 +560,9 @@ Fixpoint tspec (live : list (name * (N * bool))) (next : N) (started : list N)
       | TList, TNames l =>
           list_eqb N.eqb l (sort_by (fun x => x) (map fst live)) && tspec live next started ops' outs' runs
       | TCancelAll, TCode Nil => tspec [] next started ops' outs' runs
+      | TCancelSet l, TCode Nil =>
+          (* exactly the live names that have the prefix are gone, none of them runs *)
+          tspec (filter (fun e => negb (existsb (N.eqb (fst e)) l)) live) next started ops' outs' runs
       | _, _ => false
       end
   | _, _ => false
